@@ -8,7 +8,7 @@ signature); `X509Cert::new` (`Model/Codec/X509.lean`, the parser of DAC / PAI / 
 complete `Certificate` and then applies the attestation profile (`validate_issuer_subject` needs VID / PID
 attributes, `Dac/Pai/PaaExtensions::decode_value` a fixed extension profile, `ParsedExtensionFields::parse` refuses every
 critical extension it does not know — among them the critical extended-key-usage of every Matter NOC). So
-`x509New k (as_asn1 output)` is legitimately an error (by inspection; not a theorem) and the honest end-to-end statement is at the level of the
+`x509New k (as_asn1 output)` is legitimately an error (`DerRd.x509New_tbs_refused` in `CodecDerLinkWalk.lean`) and the honest end-to-end statement is at the level of the
 *field readers* `TbsCertificate::decode_value` is made of: `ContextSpecific::decode` of the version, `AnyRef` serial,
 `AlgorithmIdentifier`, `Name::decode` (+ `MatterDnAttrs::parse`), `Validity`, `SubjectPublicKeyInfo::decode`,
 `ParsedExtensionFields::parse`. This file proves what these `Dec` actions of the model return on the bytes
@@ -283,14 +283,10 @@ the TBSCertificate `as_asn1` writes is, field by field, the X.509 model's own en
 `Run p l Q l'` = on every reader (any nesting) whose remaining input is `l`, `p` succeeds with a value satisfying `Q` and
 leaves `l'`.
 
-**Not covered (exact gap):** (1) `Validity::decode` on `validityBytes nb na` — the X.509 model's `DateTime` arithmetic
-(`DateTime::new`, musl `__secs_to_tm`) and the writer's `civil_from_days` are two calendar algorithms whose agreement is
-not proved here, so the two halves are not composed into one walk; (2) `ParsedExtensionFields::parse` on `extsBytes` — no
-theorem; by inspection of the model (`extApply`: unknown OID ∧ critical ⇒ `Failed`) it *refuses* the critical
-extended-key-usage extension every Matter NOC carries, and `as_asn1` writes a path length ≥ 128 as a one-octet (negative)
-INTEGER that `u8::decode` refuses; (3) `X509Cert::new` itself — no theorem; by inspection it is an error on this input for
-every certificate type: it expects `Certificate` (TBS + signature algorithm + signature), `as_asn1` emits the TBS only, and
-the DAC / PAI / PAA profile checks need VID / PID attributes a Matter operational certificate does not have. -/
+**Continued in `Lemmas/CodecDerLinkWalk.lean`:** `Validity::decode` (calendar agreement `calOf_agree`) and the single composed
+walk `C17.cert_x509_tbs_walk`; the extension reader (`C17.cert_x509_exts_read` for RCAC / ICAC-shaped lists,
+`C17.cert_x509_exts_eku_refused`: the critical extended key usage of every NOC is refused); `X509Cert::new` on this
+TBS-only input is `InvalidData` (`DerRd.x509New_tbs_refused`). -/
 theorem cert_x509_field_readers (f : Fields) (h : f.Legal) (hpl : f.pubkey.length = 65) (hph : f.pubkey.head? = some 4) :
     ∃ n xi xs nb na, certNode f = some n ∧ mapO Attr.toX f.issuer = some xi ∧ mapO Attr.toX f.subject = some xs ∧
       timeNode f.notBefore = some nb ∧ timeNode (if f.notAfter = 0 then DOESNT_EXPIRE else f.notAfter) = some na ∧
